@@ -367,8 +367,14 @@ def replay_case(mod, target_name, cfg, case, times=3):
 
 # ---------------------------------------------------------------------------------- driver side
 
+def _out_root():
+    """where new replay files and evidence go: /verif, or a scratch directory while a check is run against a
+    deliberately changed tree (tools/verify_seed.py, tools/seed_recheck.py)"""
+    return os.environ.get("VERIF_SCRATCH_OUT") or VERIF
+
+
 def _write_replay(prop, rec):
-    d = os.path.join(VERIF, "replay", prop)
+    d = os.path.join(_out_root(), "replay", prop)
     os.makedirs(d, exist_ok=True)
     h = "%016x" % case_hash([rec["target"], rec["cfg"], rec["case"]])
     p = os.path.join(d, "%s.json" % h)
@@ -382,7 +388,7 @@ def run_check(prop, tier, seed, jobs=16, only=None, scale=1.0):
     modname = "props.%s" % prop.lower()
     mod = importlib.import_module(modname)
     os.makedirs(os.path.join(VERIF, ".work"), exist_ok=True)
-    os.makedirs(os.path.join(VERIF, "evidence"), exist_ok=True)
+    os.makedirs(os.path.join(_out_root(), "evidence"), exist_ok=True)
 
     # 0. oracle self-test: a broken reference must never look like a violation
     if hasattr(mod, "self_test"):
@@ -585,7 +591,7 @@ def run_check(prop, tier, seed, jobs=16, only=None, scale=1.0):
             pass
     if getattr(mod, "EXHAUSTIVE", False):
         ev["coverage"]["exhaustive"] = True
-    evp = os.path.join(VERIF, "evidence", "%s.json" % prop)
+    evp = os.path.join(_out_root(), "evidence", "%s.json" % prop)
     try:
         import jsonschema
         schema = json.load(open("/root/.vp/EVIDENCE.schema.json")) if os.path.exists("/root/.vp/EVIDENCE.schema.json") \
